@@ -112,7 +112,8 @@ def run(ctx):
                 ra = substr_role(arg)
                 good_arg = "i64" in str(pr[2]) and ra[0] == "suffix" and ra[1] == "rfind" and ra[2] == "nb" and is_ver(arg[0])
                 if pc[-1].fact == ("eq", 0) or (pc[-1].fact[0] == "ne" and 1 in pc[-1].fact[1]):
-                    okrev = good_arg and strip_refs(x) == ("field", ("downcast", pr, "Ok"), 0, "")
+                    x0 = strip_refs(x)
+                    okrev = good_arg and isinstance(x0, tuple) and len(x0) > 2 and x0[0] == "field" and x0[2] == 0 and isinstance(x0[1], tuple) and x0[1][:3] == ("downcast", pr, "Ok")
                     why = "when the text after nb parses, revision is %s (parse argument: %s %s %r)" % (term_str(x)[:80], ra[0], ra[1], ra[2])
                 else:
                     okrev = good_arg and const_int(x) == 0
